@@ -279,6 +279,11 @@ func (s *Server[StateT]) handleReadFile(ctx *Context[StateT]) error {
 	}
 
 	if err = s.Handler.HandleReadFile(ctx, toRead, off, rw); err != nil {
+		if rw.dataLength < 0 {
+			// nothing was announced yet, so request can still be answered with error code (like other commands do)
+			return ctx.wr.SendReadFileResultLen(-1)
+		}
+
 		return err
 	}
 
